@@ -335,6 +335,23 @@ theorem pmt_wire_limits (pver : Nat) (m : PmtWire.Msg) (b : Bytes) :
   have : ¬ pver < PmtWire.BIP0037_VERSION := by omega
   simp [PmtWire.encode, this, h2]
 
+/-- Soundness ("proves exactly"): ANY flag bytes and hash list — however produced — whose BIP37 extraction
+    succeeds with the block's merkle root prove only real transactions of the block at their real positions,
+    provided the node hash is collision-free (explicit hypothesis: `hh` injective). -/
+theorem pmt_extract_sound {α : Type} (hh : α → α → α) (dflt : α)
+    (inj : ∀ a b c d : α, hh a b = hh c d → a = c ∧ b = d) (leaves : List α)
+    (hn : leaves.length ≤ 2 ^ 64) (flags : List UInt8) (hashes : List α) (m : List (Nat × α))
+    (hex : Pmt.extract hh leaves.length flags hashes = some (Pmt.merkleRoot hh dflt leaves, m)) :
+    ∀ p ∈ m, p.1 < leaves.length ∧ p.2 = leaves.getD p.1 dflt :=
+  Pmt.extract_sound hh dflt inj leaves hn flags hashes m hex
+
+example : ∀ a b c d : List Nat, (fun (x y : List Nat) => x.length :: (x ++ y)) a b =
+    (fun (x y : List Nat) => x.length :: (x ++ y)) c d → a = c ∧ b = d := by
+  intro a b c d h
+  simp only [List.cons.injEq] at h
+  obtain ⟨hl, happ⟩ := h
+  exact List.append_inj happ hl
+
 /-- the index list `NewMerkleBlock` returns is the same matched set -/
 theorem pmt_matched_indices {α : Type} (hh : α → α → α) (dflt : α) (leaves : List α) (matched : List Bool) :
     (Pmt.newMerkleBlock hh dflt leaves matched).matchedIdx =
